@@ -873,6 +873,40 @@ const SPECS: &[Spec] = &[
                `old_key` (the theorem instantiates them from the model's state; a parameter of a key the variant does not \
                have is never consulted).",
     },
+    Spec {
+        id: "C15",
+        file: "src/server/taproxy.rs",
+        ty: "TrustAnchorProxy",
+        method: "process_give_child_response",
+        lean: "TrustAnchorProxy.process_give_child_response",
+        sig: "&self,child_handle:ChildHandle,key:KeyIdentifier->KrillResult<Vec<TrustAnchorProxyEvent>>",
+        binders: "{C ε α : Type} (get_child : Except ε C) (has_open_response : C → Bool) (given : α) (err_no_response : ε)",
+        args: "get_child has_open_response given err_no_response",
+        ret: "Except ε α",
+        num: Num::Nat,
+        names: &[
+            ("self.get_child_details(&child_handle)", "get_child"),
+            ("child.open_responses.contains_key(&key)", "(has_open_response child)"),
+            ("vec![TrustAnchorProxyEvent::ChildResponseGiven(child_handle,key,)]", "given"),
+            ("Error::Custom(format!(\"Noresponsefoundforchild{child_handle}andkey{key}\"))", "err_no_response"),
+        ],
+        methods: &[],
+        state_ty: &[],
+        elem_ty: "",
+        enums: &[],
+        structs: &[],
+        types: &[],
+        opaque_lets: &[],
+        effects: &[],
+        wrapper: None,
+        cond_effects: &[],
+        tail: None,
+        note: "`get_child` is the look-up of the child (an unknown child is an error), `has_open_response child` whether the \
+               proxy holds a response for (child, key); the one event `ChildResponseGiven(child, key)` and the refusal are \
+               parameters.  The refusal is what keeps a second, overlapping delivery of the same response from succeeding \
+               (`ta_slow_rfc6492_request` reads the response, sends this command, and hands the response to the child only \
+               if the command succeeded).",
+    },
 ];
 
 type R = Result<String, String>;
